@@ -1,6 +1,8 @@
 """C10 — conditions gate firing and use no budget when false / failing; expressions see the paused frame's locals and
 its module's globals and nothing of the agent; a failing expression is an error result for that expression only."""
 import builtins as _builtins
+import itertools
+import threading
 
 import core
 from props import _exprlib as X
@@ -22,7 +24,10 @@ RULE = ('histories: action kind (snapshot / log / metric) x fire_count text x fi
         'names that exist only in the agent\'s modules (must be NameError), host names that collide with agent names, '
         'attribute / index / call expressions and expressions raising any BaseException subclass; multi: 2-3 '
         'tracepoints on ONE line (merged into one trigger as convert_response does, or installed as separate triggers), '
-        'each with its own condition function, limits and action kind, judged per tracepoint. Non-trivial: a '
+        'each with its own condition function, limits and action kind, judged per tracepoint; conc: two threads at one '
+        'log (or snapshot+log) tracepoint, each in its own frame (own locals, own module globals), each parked inside a '
+        '`pause()` field of the message, all 6 interleavings forced — every field must be evaluated in the frame of its '
+        'own hit. Non-trivial: a '
         'history with at least one condition-rejected hit followed by a collection, or a scope case with at least one '
         'failing and one succeeding expression. Distinct = distinct canonical JSON of the case.')
 TRUSTED = ['Python eval / str on live values is the eval oracle (reference evaluation in a copy of the environment)',
@@ -193,11 +198,27 @@ def gen_multi(rng):
     return {'kind': 'multi', 'install': rng.choice(['merged', 'separate']), 'tps': tps, 'hits': hits}
 
 
+SCHEDULES = sorted(set(itertools.permutations([0, 0, 1, 1])))
+CONC_FIELDS = ['a', 's', 'GSTR', 'GNUM + a', 'lst[0]', 'd["k"]', 'o.name', 'twice(a)', 'len(s)', 'nope', 'a / 0', 'uuid',
+               'GOBJ.name', 'who']
+
+
+def gen_conc(rng, k):
+    """two threads at one log tracepoint, each in its own frame (own locals, own module globals); each is parked
+    inside a `pause()` field of the message while the other runs"""
+    fields = [rng.choice(CONC_FIELDS) for _ in range(rng.randint(1, 4))]
+    fields.insert(rng.randint(0, len(fields) - 1), 'pause()')
+    return {'kind': 'conc', 'mode': rng.choice(['log', 'snap']), 'fields': fields,
+            'sched': list(SCHEDULES[k % len(SCHEDULES)])}
+
+
 def gen(rng, tier):
     k = 0
     while True:
         k += 1
-        if k % 7 == 0:
+        if k % 13 == 0:
+            yield gen_conc(rng, k // 13)
+        elif k % 7 == 0:
             yield gen_multi(rng)
         elif k % 4 == 0:
             yield gen_scope(rng)
@@ -228,6 +249,9 @@ def corpus():
          'watches': ['G', 'uuid', 'FrameType', 'time_ns', 'x', 'len', 'p', 'p + 1', 'nope'],
          'condition': 'G == "G:G"', 'frame_type': None, 'log_fields': ['G', 'FrameType'],
          'metric': {'expr': 'p', 'labels': [['l1', 'G'], ['l2', 'uuid'], ['l3', 'time_ns']]}},
+        # two threads expanding a log message at once: every field is evaluated in the frame of its own hit
+        {'kind': 'conc', 'mode': 'log', 'fields': ['pause()', 'a', 'GSTR', 'who'], 'sched': [0, 1, 1, 0]},
+        {'kind': 'conc', 'mode': 'snap', 'fields': ['who', 'pause()', 's', 'GNUM + a'], 'sched': [0, 1, 0, 1]},
         # two tracepoints on one line with different conditions: each is judged on its own condition
         {'kind': 'multi', 'install': 'merged',
          'tps': [{'action': 'snapshot', 'cfg': {'fire_count': '-1', 'fire_period': '0'}, 'condition': 'c0()'},
@@ -368,6 +392,121 @@ def run_multi(case):
         rig.close()
 
 
+def conc_env(i):
+    """(globals spec, locals spec) of thread i: same names, different values"""
+    g = {'GNUM': 42 + 100 * i, 'GSTR': 'glob%d' % i, 'GOBJ': {'obj': {'name': 'gob%d' % i}}}
+    loc = [['a', 5 + 10 * i], ['s', 'text%d' % i], ['lst', [3 + i, 1, 2]], ['d', {'k': 'v%d' % i}],
+           ['o', {'obj': {'name': 'bob%d' % i}}], ['who', 'T%d' % i]]
+    return g, loc
+
+
+class Parked:
+    """one hit on its own thread; the `pause()` field parks it until the driver releases it"""
+
+    def __init__(self, idx, run):
+        self.idx, self.run = idx, run
+        self.arrived = threading.Semaphore(0)
+        self.release = threading.Event()
+        self.parked = self.finished = False
+        self.error = None
+        self.thread = None
+
+    def pause(self):
+        self.parked = True
+        self.arrived.release()
+        if not self.release.wait(30):
+            raise TimeoutError('pause not released')
+        self.parked = False
+        return 'p%d' % self.idx
+
+    def body(self):
+        try:
+            self.run(self)
+        except BaseException as e:  # noqa: B902
+            self.error = f'{type(e).__name__}: {e}'
+        finally:
+            self.finished = True
+            self.arrived.release()
+
+    def advance(self):
+        if self.finished:
+            return
+        if self.thread is None:
+            self.thread = threading.Thread(target=self.body, daemon=True)
+            self.thread.start()
+        elif self.parked:
+            self.release.set()
+        else:
+            return
+        if not self.arrived.acquire(timeout=30):
+            raise core.Infra('schedule driver: thread did not reach its pause / finish in 30 s')
+
+
+def run_conc(case):
+    from deep.api.tracepoint.trigger import build_trigger
+    from rig import RecLogger
+
+    class ThreadLogger(RecLogger):
+        def __init__(self):
+            super().__init__()
+            self.who = []
+
+        def log_tracepoint(self, log_msg, tp_id, ctx_id):
+            self.who.append(threading.current_thread())
+            super().log_tracepoint(log_msg, tp_id, ctx_id)
+    logger = ThreadLogger()
+    rig = Rig(logger=False, plugins=[logger])
+    try:
+        args = {'log_msg': log_template(case['fields']), 'fire_count': '-1', 'fire_period': '0'}
+        if case['mode'] == 'log':
+            args['snapshot'] = 'no_collect'
+        else:
+            args['frame_type'] = 'no_frame'
+        rig.install([build_trigger('tp1', 'host.py', 7, args, [], [])])
+        owners, orig_push = [], rig.push.push_snapshot
+
+        def push(snap):
+            owners.append(threading.current_thread())
+            orig_push(snap)
+        rig.push.push_snapshot = push
+        mods = [X.make_module(X.unique('verif_host_c10t'), conc_env(i)[0]) for i in range(2)]
+
+        def run(t):
+            loc = {k: X.build_value(v) for k, v in conc_env(t.idx)[1]}
+            loc['pause'] = t.pause
+            rig.handler.trace_call(MockFrame('/app/host.py', 'fn', 7, loc, f_globals=mods[t.idx].__dict__), 'line', None)
+        thrs = [Parked(i, run) for i in range(2)]
+        for i in case['sched']:
+            thrs[i].advance()
+        for t in thrs:
+            t.advance()
+            while not t.finished:
+                t.advance()
+            t.thread.join(30)
+        out = []
+        for t in thrs:
+            ent = {'messages': [c[0] for c, w in zip(logger.logged, logger.who) if w is t.thread]}
+            if t.error:
+                ent['raised'] = t.error
+            snaps = [sn for sn, w in zip(rig.push.pushed, owners) if w is t.thread]
+            ent['snapshots'] = len(snaps)
+            if snaps:
+                ent['log'] = snaps[0].log_msg
+                ent['watches'] = X.watch_dump(snaps[0])
+            out.append(ent)
+        return {'threads': out}
+    finally:
+        rig.close()
+
+
+def conc_reference(case, i):
+    g, loc = conc_env(i)
+    mod = X.make_module('verif_ref_c10t', g)
+    env_l = {k: X.build_value(v) for k, v in loc}
+    env_l['pause'] = lambda: 'p%d' % i
+    return mod.__dict__, env_l
+
+
 def multi_as_histories(case):
     """each tracepoint of a multi case seen alone"""
     return [{'kind': 'history', 'stream': 'bool', 'action': tp['action'], 'cfg': tp['cfg'], 'condition': tp['condition'],
@@ -438,6 +577,8 @@ def run_scope(case):
 
 
 def run_impl(case):
+    if case['kind'] == 'conc':
+        return run_conc(case)
     if case['kind'] == 'multi':
         return run_multi(case)
     return run_history(case) if case['kind'] == 'history' else run_scope(case)
@@ -488,6 +629,25 @@ def oracle(case, obs):
     v = []
     if 'raised' in obs:
         return ['the agent raised into the host: ' + obs['raised']]
+    if case['kind'] == 'conc':
+        for i, t in enumerate(obs['threads']):
+            if 'raised' in t:
+                return [f'thread {i}: the agent raised into the host: {t["raised"]}']
+            g, loc = conc_reference(case, i)
+            outs = [X.outcome(f, g, loc) for f in case['fields']]
+            exp = '[deep] ' + ' | '.join('%d=%s' % (j, o['text']) for j, o in enumerate(outs))
+            if t['messages'] != [exp]:
+                v.append(f'thread {i}: message {t["messages"]!r}; its fields evaluated in the frame of its own hit give '
+                         f'{exp!r}')
+            if case['mode'] == 'snap':
+                ws = [w for w in t.get('watches', []) if w['source'] == 'LOG']
+                if t['snapshots'] != 1 or t.get('log') != exp:
+                    v.append(f'thread {i}: {t["snapshots"]} snapshot(s) with log message {t.get("log")!r}, expected {exp!r}')
+                elif [(w['expr'], w['type'], w['value']) for w in ws] != \
+                        [(f, o['ty'], o['text']) for f, o in zip(case['fields'], outs)]:
+                    v.append(f'thread {i}: LOG watches {[(w["expr"], w["value"]) for w in ws]!r} are not the fields of its '
+                             f'own message evaluated in its own frame')
+        return v[:4]
     if case['kind'] == 'multi':
         for i, hc in enumerate(multi_as_histories(case)):
             fired, evals = reference_history(hc)
@@ -581,6 +741,12 @@ def name_bindings(case):
 def model_request(case, obs):
     if 'raised' in obs:
         return None
+    if case['kind'] == 'conc':
+        reqs = []
+        for i in range(2):
+            g, loc = conc_reference(case, i)
+            reqs.append({'exprs': case['fields'], 'oracle': [{'e': f, 'o': X.outcome(f, g, loc)} for f in set(case['fields'])]})
+        return {'op': 'evalallN', 'threads': reqs}
     if case['kind'] == 'multi':
         return {'op': 'runN', 'runs': [model_request(hc, obs) for hc in multi_as_histories(case)]}
     if case['kind'] == 'history':
@@ -612,6 +778,14 @@ def observed_binding(case, n, w):
 def compare(case, obs, resp):
     if 'error' in resp:
         return ['model error: ' + resp['error']]
+    if case['kind'] == 'conc':
+        # in the model every hit evaluates its expressions with its own oracle: no state is shared between hits
+        d = []
+        for i, (t, rs) in enumerate(zip(obs['threads'], resp['threads'])):
+            exp = '[deep] ' + ' | '.join('%d=%s' % (j, r['value']) for j, r in enumerate(rs))
+            if t['messages'] != [exp]:
+                d.append(f'thread {i}: model {exp!r} vs implementation {t["messages"]!r}')
+        return d
     if case['kind'] == 'multi':
         d = []
         for i, r in enumerate(resp['runs']):
@@ -642,6 +816,8 @@ def compare(case, obs, resp):
 
 
 def label(case, obs):
+    if case['kind'] == 'conc':
+        return 'conc/%s/%s' % (case['mode'], ''.join(map(str, case['sched'])))
     if case['kind'] == 'multi':
         return f"multi/{case['install']}/{len(case['tps'])}"
     if case['kind'] == 'history':
@@ -653,6 +829,8 @@ def label(case, obs):
 
 
 def nontrivial(case, obs):
+    if case['kind'] == 'conc':
+        return case['sched'] not in ([0, 0, 1, 1], [1, 1, 0, 0]) and len(case['fields']) > 1
     if case['kind'] == 'multi':
         # some hit at which two tracepoints with conditions disagree
         return any(len({c['k'] == 'true' for c, tp in zip(h['conds'], case['tps']) if not blank(tp['condition'])}) > 1
@@ -674,6 +852,13 @@ def nontrivial(case, obs):
 
 
 def shrink(case):
+    if case['kind'] == 'conc':
+        for i, f in enumerate(case['fields']):
+            if f != 'pause()':
+                c = dict(case)
+                c['fields'] = case['fields'][:i] + case['fields'][i + 1:]
+                yield c
+        return
     if case['kind'] == 'multi':
         for i in range(len(case['hits'])):
             c = dict(case)
